@@ -354,9 +354,47 @@ def nocache_case(sessions, held):
 def sessions_without_cache(tier, seed):
     cases = [(n, held) for n in (1, 2, 3) for held in (False, True)]
     fails = [f for f in (nocache_case(*c) for c in cases) if f]
-    return {'evaluations': len(cases), 'distinct_nontrivial': len(cases), 'exhaustive': True, 'bound': '1, 2 and 3 consecutive sessions of a neighbor with `adj-rib-out false` and route-refresh disabled, one configured route, with and without a second one held back by its watchdog; real send statements of Peer._main, recording transport', 'rule': 'one case = (number of sessions, held-back route)', 'samples': [{'sessions': 2, 'route_held_back_by_a_watchdog': False}], 'failures': fails}
+    f = cache_switched_on_case()
+    if f:
+        fails.append(f)
+    return {'evaluations': len(cases) + 1, 'distinct_nontrivial': len(cases) + 1, 'exhaustive': True, 'bound': 'one history in which a reload switches adj-rib-out on before an API announce and a session loss; 1, 2 and 3 consecutive sessions of a neighbor with `adj-rib-out false` and route-refresh disabled, one configured route, with and without a second one held back by its watchdog; real send statements of Peer._main, recording transport', 'rule': 'one case = (number of sessions, held-back route)', 'samples': [{'sessions': 2, 'route_held_back_by_a_watchdog': False}], 'failures': fails}
 
 
 @replayer('C11', 'sessions-without-adj-rib-out')
 def _replay_nocache(f):
+    if 'history' in f['input']:
+        return cache_switched_on_case() is None
     return nocache_case(f['input']['sessions'], f['input']['route_held_back_by_a_watchdog']) is None
+
+
+def cache_switched_on_case():
+    """adj-rib-out false, then a reload which switches it on (the neighbor definition differs: the session is
+    re-established), an API route, a session loss: the API route is part of the next session's table"""
+    inp = {'history': ['adj-rib-out false', 'reload: adj-rib-out on', 'announce route 10.0.2.0/24 med 10', 'session lost', 'session re-established']}
+    w = c17.World(dict(routes={'A': 10}, hold=180, nocache=True))
+    key = list(w.peers())[0]
+    s = Sess(w, key)
+    try:
+        if not s.settle():
+            return {'what': 'first session never settles', 'input': inp}
+        if w.reload(dict(routes={'A': 10}, hold=180)) is not True:
+            return {'what': f'new configuration refused: {w.reactor.configuration.error}', 'input': inp}
+        s.peer = w.peers()[key]
+        s.lose()  # the changed definition tears the session down; Peer._reset installs the new neighbor
+        s.up()
+        if not s.settle():
+            return {'what': 'session after the reload never settles', 'input': inp}
+        rib = s.peer.neighbor.rib.outgoing
+        apply(rib, ('ann', 1, 10))
+        if not s.settle():
+            return {'what': 'session never settles after the API announce', 'input': inp}
+        s.lose()
+        s.up()
+        if not s.settle():
+            return {'what': 'last session never settles', 'input': inp}
+    except Exception as e:  # noqa
+        return {'what': f'path raised {type(e).__name__}: {str(e)[:200]}', 'input': inp}
+    want = {_key(0): ('192.0.2.1', 10), _key(1): ('192.0.2.1', 10)}
+    if s.table.table != want:
+        return {'what': 'adj-rib-out switched on by a reload is not honoured: an API route announced afterwards is not re-advertised on the next session', 'input': inp, 'intended': str(sorted(want.items())), 'peer': str(sorted(s.table.table.items()))}
+    return None
